@@ -125,12 +125,15 @@ def solve(p, M, dt):
                 break
     bfuel = False
     if not conv:
+        shrink_far = False
         if ell:
             Xmin = Xpp * math.floor(dt * invperiod) if math.isfinite(dt * invperiod) else Xpp * (dt * invperiod)
             Xmax = Xmin + Xpp
         else:
             h2 = r0 * r0 * v2 - eta0 * eta0
-            q = div(div(h2, M), 1.0 + sqrt(1.0 - div(h2 * beta, M * M)))
+            e2 = 1.0 - div(h2 * beta, M * M)
+            q = div(div(h2, M), 1.0 + sqrt(e2))
+            shrink_far = e2 < 1e16          # fix 0366be3
             vq = math.copysign(div(sqrt(h2), q), dt)
             Xmin = div(dt, fastabs(vq * dt) + r0)
             Xmax = div(dt, q)
@@ -140,7 +143,12 @@ def solve(p, M, dt):
         while True:
             G = gs3(beta, X)
             s = r0 * X + eta0 * G[2] + zeta0 * G[3] - dt
-            if s >= 0.0:
+            if shrink_far and not math.isfinite(s):
+                if dt > 0.0:
+                    Xmax = X
+                else:
+                    Xmin = X
+            elif s >= 0.0:
                 Xmax = X
             else:
                 Xmin = X
